@@ -65,6 +65,38 @@ func generate(w *mon.W) {
 		}
 	}
 	rec(nil)
+	// wide operators (1..17 and near powers of two many elements), alone and followed by others
+	for _, kind := range []string{"project", "extend", "sort", "summarize"} {
+		for _, sz := range gen.WideSizes {
+			if sz > 70 {
+				continue
+			}
+			for v := 0; v < 2; v++ {
+				g := &gen.PipeGen{Rng: rng, DetSort: 80}
+				s := append(gen.Schema{}, gen.BaseSchemas["T"]...)
+				p := &Pipe{Table: Ident{Name: "T"}}
+				if v == 1 {
+					var op0 *Op
+					op0, s = g.Op("where", s, 0)
+					p.Ops = append(p.Ops, op0)
+				}
+				wop, s2 := g.WideOp(kind, sz, s)
+				p.Ops = append(p.Ops, wop)
+				if v == 1 {
+					for _, k := range []string{"sort", "take"} {
+						var op1 *Op
+						op1, s2 = g.Op(k, s2, 0)
+						p.Ops = append(p.Ops, op1)
+					}
+				}
+				c := &pipecheck.Case{Pipe: p}
+				for i := 0; i < nInst; i++ {
+					c.Instances = append(c.Instances, rng.Int63())
+				}
+				w.Do(fmt.Sprint("wide|", kind, "|", sz, "|", v), func(r *mon.R) { pipecheck.Check(c, r, "C02") })
+			}
+		}
+	}
 	n := w.Pick(12_000, 400_000)
 	for i := 0; i < n && !w.Stopped(); i++ {
 		l := 2 + rng.Intn(9)
